@@ -42,6 +42,7 @@ Mutate(t, m, s) ==
     [] s.op = "clear" -> Del(m, s.f)
     [] s.op = "mut"   -> IF Has(ClearSiblings(t, m, fd), s.f) THEN m ELSE Put(ClearSiblings(t, m, fd), s.f, [m |-> EmptyMsg])
     [] s.op = "app"   -> AppendList(m, s.f, <<s.v>>)
+    [] s.op = "setl"  -> IF s.v.l = <<>> THEN Del(m, s.f) ELSE Put(m, s.f, s.v)
     [] s.op = "trunc" -> IF ~Has(m, s.f) \/ s.n = 0 THEN Del(m, s.f) ELSE Put(m, s.f, [l |-> SubSeq(Get(m, s.f).l, 1, s.n)])
     [] s.op = "lset"  -> Put(m, s.f, [l |-> [Get(m, s.f).l EXCEPT ![s.i + 1] = s.v]])
     [] s.op = "mset"  -> MapPut(m, s.f, s.k, s.v)
@@ -80,7 +81,7 @@ OldReaderHasUnknown(t, m, del) ==
   \/ m.u # <<>>
   \/ \E i \in 1..Len(m.f) : (\E k \in 1..Len(del) : del[k] = m.f[i][1]) \/ FieldOf(t, m.f[i][1]).ext
 
-MutOps == {"set", "clear", "mut", "app", "trunc", "lset", "mset", "mdel", "setu"}
+MutOps == {"set", "clear", "mut", "app", "trunc", "lset", "mset", "mdel", "setu", "setl"}
 Limit(s) == IF s.limit = 0 THEN 10000 ELSE s.limit
 
 \* literals in steps arrive in projection form
